@@ -195,11 +195,11 @@ def check_signed(chk, F, ty):
         if body is None:
             chk.undecide("signed|%s|%s" % (ty, name), "missing anchor")
             continue
-        paths = run_paths(F, body, lambda: [sp0.operand("self")])
-        ok = all(len(ctx.trace) == 1 and ctx.trace[0][0] == ("pred", want, X.key()) and unref(val).b == ctx.trace[0][2]
-                 for ctx, val, it, a in paths)
-        chk.ob("signed|%s|%s" % (ty, name), ok, "%s forwards to the same predicate of the real part" % name,
-               body_loc(F, body), found=[path_descr(c) for c, _, _, _ in paths], nontrivial=False)
+        from .c06 import single_pred_forward
+        try:
+            single_pred_forward(chk, F, "signed|%s|%s" % (ty, name), body, sp0, want, operand="self")
+        except Unsupported as ex:
+            chk.undecide("signed|%s|%s" % (ty, name), "unsupported: %s" % ex, body_loc(F, body))
 
 
 def guard_on_re_only(key):
